@@ -95,6 +95,89 @@ def gen_Exits():
             unprotected += 1
     if not restore_seen:
         raise Refusal("no statement restoring _position/_orientation found after the tiling block")
+
+    # (audit2) WHAT the restore puts back.  `restoreBySlicing = false` only says "no `obj._position = obj._position[…]`";
+    # it does not say that the arrays written back are the ones read off the objects BEFORE the tiling.  A save taken
+    # after the tiling loop gives the same three flags and leaves every tiled path in place.  The fourth fact holds iff
+    #   * the restore is ONE loop `for v, (p, o) in zip(A, B): v._position = p; v._orientation = o` (nothing else in its body),
+    #   * B is a plain name stored exactly once in the whole function, by a TOP-LEVEL statement that comes before the first
+    #     tiling statement, of the form `B = [(x._position, x._orientation) for x in A]` (same A, no condition),
+    #   * B is read exactly once (by that zip) — no `B.append`, no alias —, and A is stored exactly once, before the save.
+    def _names(node, ident, ctx):
+        return [n for n in ast.walk(node) if isinstance(n, ast.Name) and n.id == ident and isinstance(n.ctx, ctx)]
+
+    def _restore_loop(stmts):
+        loops = [n for st_ in stmts for n in ast.walk(st_) if isinstance(n, ast.For) and assigns_path(n)]
+        others = [st_ for st_ in stmts if assigns_path(st_) and not any(l is st_ or l in list(ast.walk(st_)) for l in loops)]
+        if len(loops) != 1 or others:
+            return None
+        lp = loops[0]
+        it, tg = lp.iter, lp.target
+        if not (isinstance(it, ast.Call) and isinstance(it.func, ast.Name) and it.func.id == "zip" and len(it.args) == 2
+                and not it.keywords and all(isinstance(a, ast.Name) for a in it.args)):
+            return None
+        if not (isinstance(tg, ast.Tuple) and len(tg.elts) == 2 and isinstance(tg.elts[0], ast.Name)
+                and isinstance(tg.elts[1], ast.Tuple) and len(tg.elts[1].elts) == 2
+                and all(isinstance(e, ast.Name) for e in tg.elts[1].elts)):
+            return None
+        v, (pn, on) = tg.elts[0].id, [e.id for e in tg.elts[1].elts]
+        if len({v, pn, on}) != 3 or lp.orelse:
+            return None
+        want = {"_position": pn, "_orientation": on}
+        seen = {}
+        for b in lp.body:
+            if not (isinstance(b, ast.Assign) and len(b.targets) == 1 and isinstance(b.targets[0], ast.Attribute)
+                    and isinstance(b.targets[0].value, ast.Name) and b.targets[0].value.id == v
+                    and b.targets[0].attr in want and isinstance(b.value, ast.Name)
+                    and b.value.id == want[b.targets[0].attr] and b.targets[0].attr not in seen):
+                return None
+            seen[b.targets[0].attr] = True
+        if set(seen) != set(want):
+            return None
+        return it.args[0].id, it.args[1].id
+
+    def _saved_before_tiling():
+        if slice_restore:
+            return False
+        stmts = None
+        for st_ in after:
+            if isinstance(st_, ast.Try) and st_.finalbody and any(assigns_path(x) for x in st_.finalbody):
+                stmts = st_.finalbody
+                break
+            if assigns_path(st_):
+                stmts = [st_]
+                break
+        got = _restore_loop(stmts or [])
+        if got is None:
+            return False
+        a_name, b_name = got
+        if len(_names(fn, b_name, ast.Store)) != 1 or len(_names(fn, b_name, ast.Load)) != 1 or _names(fn, b_name, ast.Del):
+            return False
+        if len(_names(fn, a_name, ast.Store)) != 1 or _names(fn, a_name, ast.Del):
+            return False
+        save_idx = [j for j, st_ in enumerate(body) if isinstance(st_, ast.Assign) and len(st_.targets) == 1
+                    and isinstance(st_.targets[0], ast.Name) and st_.targets[0].id == b_name]
+        a_idx = [j for j, st_ in enumerate(body) if isinstance(st_, ast.Assign) and len(st_.targets) == 1
+                 and isinstance(st_.targets[0], ast.Name) and st_.targets[0].id == a_name]
+        if len(save_idx) != 1 or len(a_idx) != 1 or not (a_idx[0] < save_idx[0] < first_tile):
+            return False
+        val = body[save_idx[0]].value
+        if not (isinstance(val, ast.ListComp) and len(val.generators) == 1):
+            return False
+        g = val.generators[0]
+        if not (isinstance(g.target, ast.Name) and isinstance(g.iter, ast.Name) and g.iter.id == a_name and not g.ifs
+                and not g.is_async):
+            return False
+        x = g.target.id
+        e = val.elt
+        if not (isinstance(e, ast.Tuple) and len(e.elts) == 2):
+            return False
+        for el, attr in zip(e.elts, ("_position", "_orientation")):
+            if not (isinstance(el, ast.Attribute) and el.attr == attr and isinstance(el.value, ast.Name) and el.value.id == x):
+                return False
+        return True
+
+    saved_before = _saved_before_tiling()
     body_txt = (
         "namespace MagpyVerif.Gen.Exits\n\n"
         "/-- the restore of the tiled paths sits in the `finally` of a try that starts right after the tiling -/\n"
@@ -103,6 +186,11 @@ def gen_Exits():
         f"def unprotectedSitesAfterTiling : Nat := {unprotected}\n\n"
         "/-- the restore slices the tiled path (`obj._position[:m0]`) instead of putting the saved arrays back -/\n"
         f"def restoreBySlicing : Bool := {'true' if slice_restore else 'false'}\n\n"
+        "/-- (audit2) the restore is ONE loop `for v, (p, o) in zip(A, B): v._position = p; v._orientation = o` and `B` is stored\n"
+        "exactly once, by a top-level statement BEFORE the first tiling statement, as `[(x._position, x._orientation) for x in A]`,\n"
+        "and read nowhere else: the arrays put back are the ones the objects held before the tiling.  `false` for a save taken\n"
+        "after the tiling (which leaves the other three facts as they are) or for any restore of another shape -/\n"
+        f"def savedBeforeTiling : Bool := {'true' if saved_before else 'false'}\n\n"
         "end MagpyVerif.Gen.Exits\n"
     )
     write("Exits", body_txt, "magpylib/_src/fields/field_wrap_BH.py:getBH_level2 (AST)")
